@@ -89,7 +89,7 @@ class CMonitor(scen.Monitor):
 DET = vclock.DetUUID()
 
 
-def execute(kind: str, case: dict, clock: vclock.VClock, shared: dict) -> dict:
+def execute(kind: str, case: dict, clock: vclock.VClock, shared: dict, policy_obj: Any = None, trace_funcs: set[str] | None = None) -> dict:
     """Run one case; returns observations for the oracle."""
     DET.reset()
     clock.us = 1_700_000_000_000_000
@@ -106,14 +106,14 @@ def execute(kind: str, case: dict, clock: vclock.VClock, shared: dict) -> dict:
     if kind == "sqlite":
         app = shared.get("app")
         if app is None:
-            app = shared["app"] = apps.make_app("sqlite", cached_status_time=0.0)
+            app = shared["app"] = apps.make_app("sqlite", cached_status_time=0.0, auto_final_invocation_purge_hours=0.0)
         else:
             app.purge()
             app.state_backend._runner_context_cache.clear()
             app.state_backend.invocation_threads.clear()
         app._tasks.clear()
     else:
-        app = apps.make_app("mem", cached_status_time=0.0)
+        app = apps.make_app("mem", cached_status_time=0.0, auto_final_invocation_purge_hours=0.0)
     task = app.task(tasks.keyed, **opts)
     tasks.reset_log()
     context.set_runner_context(app.app_id, apps.rctx("CLIENT"))
@@ -170,7 +170,9 @@ def execute(kind: str, case: dict, clock: vclock.VClock, shared: dict) -> dict:
         else:
             policy = sched.RandomFair(rng, 0.12 if kind == "mem" else 0.3)
         tf = sched.trace_file_set(*MEM_FILES) if kind == "mem" else set()
-        s = sched.Scheduler(policy, clock=clock, trace_files=tf, max_steps=150_000)
+        if policy_obj is not None:
+            policy = policy_obj
+        s = sched.Scheduler(policy, clock=clock, trace_files=tf, max_steps=150_000, trace_funcs=trace_funcs if kind == "mem" else None)
         poll_errors: list[dict[str, Any]] = []
 
         def runner(rid: str, slots: int, rounds: int):
@@ -194,13 +196,28 @@ def execute(kind: str, case: dict, clock: vclock.VClock, shared: dict) -> dict:
                     except Exception as exc:  # noqa: BLE001
                         st_from = getattr(exc, "from_status", None)
                         st_to = getattr(exc, "to_status", None)
-                        poll_errors.append({"runner": rid, "type": type(exc).__name__, "from": getattr(st_from, "name", None), "to": getattr(st_to, "name", None), "msg": str(exc)[:160]})
+                        import traceback as _tb
+
+                        frames = [fr.name for fr in _tb.extract_tb(exc.__traceback__) if "/pynenc/orchestrator/" in fr.filename]
+                        poll_errors.append({"runner": rid, "type": type(exc).__name__, "from": getattr(st_from, "name", None), "to": getattr(st_to, "name", None), "msg": str(exc)[:160], "where": frames})
                     s.sleep(0.001)
 
             return f
 
         for rid, slots, rounds in case["runners"]:
             s.spawn(f"r-{rid}", runner(rid, slots, rounds))
+        if case.get("purger"):
+            # the application's housekeeping: final invocations are due at once (purge period 0 h); purging them must not
+            # disturb the concurrency bookkeeping of the live ones
+            def purger():
+                for _ in range(6):
+                    try:
+                        app.orchestrator.auto_purge()
+                    except Exception as exc:  # noqa: BLE001
+                        poll_errors.append({"runner": "purger", "type": type(exc).__name__, "from": None, "to": None, "msg": str(exc)[:160]})
+                    s.sleep(0.002)
+
+            s.spawn("purger", purger)
         s.run()
         obs = {
             "failure": s.failure,
@@ -214,11 +231,15 @@ def execute(kind: str, case: dict, clock: vclock.VClock, shared: dict) -> dict:
             "status": {},
             "mode": (mode, keys),
             "actor_errors": [f"{a.name}: {type(a.exc).__name__}: {a.exc}"[:200] for a in s.actors if a.exc is not None],
+            "sched": s,
         }
         if s.failure is None:
             for iid in args_of:
-                r = app.orchestrator.get_invocation_status_record(iid)
-                obs["status"][iid] = (r.status.name, r.runner_id)
+                try:
+                    r = app.orchestrator.get_invocation_status_record(iid)
+                    obs["status"][iid] = (r.status.name, r.runner_id)
+                except KeyError:
+                    obs["status"][iid] = ("PURGED", None)
         return obs
     finally:
         mon.detach()
@@ -311,11 +332,17 @@ def judge(case: dict, obs: dict) -> list[tuple[str, str]]:
             problems.append(("blocked-unmarkable:REROUTED:reroute_off", f"{c['inv'][:8]} was REROUTED when blocked with rerouting off: it cannot become CONCURRENCY_CONTROLLED_FINAL (no edge) and is re-queued instead"))
     # ---- polls must not fail ------------------------------------------------
     for e in obs["poll_errors"]:
+        if case.get("purger") and e["type"] == "KeyError" and any("blocking" in w for w in e.get("where", [])):
+            # artefact of the purge period 0 used to compress housekeeping into the scenario: an invocation can become final
+            # AND be purged between two reads of one poll, which a real purge period (final for the whole period) excludes.
+            # Only the blocking-list reads are excused; the leftover-message variant (queue path), which does not depend on
+            # that compression, was a genuine defect (b1ed0d9).
+            continue
         problems.append((f"poll-raises:{e['type']}:{e['from']}->{e['to']}", f"poll of runner {e['runner']} raised {e['type']}: {e['msg']}"))
     # ---- quiescence: blocked invocations end final or re-queued ---------------
     if not obs["poll_errors"]:
         for iid, (st, owner) in obs["status"].items():
-            if st in L.FINAL:
+            if st in L.FINAL or st == "PURGED":
                 continue
             if st in L.AVAILABLE:
                 if iid not in obs["queue"]:
@@ -337,6 +364,7 @@ def case_strategy():
         "reroute": st.booleans(),
         "path": st.sampled_from(["call", "call", "percall", "batch"]),
         "waited": st.sampled_from([False, False, True]),
+        "purger": st.sampled_from([False, False, True]),
         "subs": st.lists(sub, min_size=1, max_size=5),
         "runners": runners,
         "policy": st.sampled_from(["rand", "rand", "pct", "np"]),
@@ -375,7 +403,7 @@ def shard(kind: str, seed: int, examples: int, known: list[str], part_name: str 
         rep.holder["case"] = {"backend": kind, **case}
         mode, keys = obs["mode"]
         part.case(key=(kind, case), nontrivial=nontrivial(case),
-                  classes=[f"backend_{kind}", f"mode_{mode}{len(keys) or ''}", f"path_{case['path']}", "waited" if case.get("waited") else "plain",
+                  classes=[f"backend_{kind}", f"mode_{mode}{len(keys) or ''}", f"path_{case['path']}", "waited" if case.get("waited") else "plain", "purger" if case.get("purger") else "no_purger",
                            f"runners{len(case['runners'])}", "reroute_on" if case["reroute"] else "reroute_off", f"policy_{case['policy']}",
                            "with_retry" if any(a[2] == 1 for a in case["subs"]) else "no_retry",
                            "poll_raised" if obs["poll_errors"] else "polls_ok"],
@@ -406,6 +434,62 @@ PROBES = [
 ]
 
 
+# saved inputs of repaired defects + directed families the random search reaches too rarely (replayed on every run)
+REGRESSIONS = [
+]
+# housekeeping while same-key work is in flight: an old final invocation is purged, its key must stay guarded
+for _mode in (1, 2):
+    for _ss in range(12):
+        REGRESSIONS.append({"mode": _mode, "reroute": True, "path": "call", "waited": False, "purger": True, "subs": [(1, 0, 0)] * 3,
+                            "runners": [("A", 1, 6), ("B", 1, 6)], "policy": "rand", "sseed": _ss})
+
+
+RULE_W = (
+    "complete search over schedules with <= 2 forced switches (yield points restricted to the Mem status-index / concurrency-lookup functions) of "
+    "small same-key workloads on one or two runners; same oracle as the cases part; non-trivial = >= 1 forced switch; distinct = (workload, switch positions)"
+)
+WINDOW_FUNCS = {"_interanl_atomic_status_transition", "_atomic_status_transition", "filter_by_statuses", "filter_by_key_arguments", "get_existing_invocations", "index_arguments_for_concurrency_control"}
+WINDOW_CASES = [
+    {"mode": 0, "reroute": False, "path": "call", "waited": False, "subs": [(1, 0, 0), (1, 0, 0)], "runners": [("A", 2, 1)], "policy": "np", "sseed": 0},
+    {"mode": 1, "reroute": False, "path": "call", "waited": False, "subs": [(1, 0, 0), (1, 0, 0)], "runners": [("A", 2, 1)], "policy": "np", "sseed": 0},
+]
+
+
+def window_shard(case_idx: int, part_i: int, part_n: int, p_max: int, known: list[str], newest_first: bool = False) -> dict:
+    from verif import explore
+
+    part = Part("index-windows", RULE_W)
+    clock = vclock.VClock(tick_us=1)
+    cinst = vclock.install(clock)
+    vclock.install_uuid(DET, cinst)
+    sched.install_clock_sleep(clock)
+    inst = sched.install_threading()
+    case = WINDOW_CASES[case_idx]
+    try:
+        def run_with(policy):
+            obs = execute("mem", case, clock, {}, policy_obj=policy, trace_funcs=WINDOW_FUNCS)
+            s_ = obs["sched"]
+            s_.obs = obs  # type: ignore[attr-defined]
+            return s_
+
+        for pre, s_ in explore.dfs_preemptions(run_with, p_max, part=(part_i, part_n), newest_first=newest_first):
+            obs = s_.obs
+            part.case(key=(case_idx, newest_first, tuple(sorted(pre.items()))), nontrivial=len(pre) >= 1, classes=[f"workload_{case_idx}", f"forced{len(pre)}", "free_choice_newest" if newest_first else "free_choice_oldest"],
+                      sample={"backend": "mem", **case, "forced_switches": sorted(pre.items()), "free_choice": "newest" if newest_first else "oldest", "steps": obs["steps"]})
+            if obs["failure"] is not None:
+                continue
+            for pk, msg in judge(case, obs):
+                key = f"cases:{pk}"
+                if key in known:
+                    part.known(key)
+                else:
+                    part.violation(key, f"[mem] {msg}", {"backend": "mem", **case, "window_pre": sorted(pre.items()), "window_newest": newest_first})
+    finally:
+        inst.uninstall()
+        cinst.uninstall()
+    return part.dump()
+
+
 def probe_shard(kind: str, known: list[str]) -> dict:
     part = Part("probes", "directed re-runs of the cases behind the listed known findings (counted separately from the search)")
     clock = vclock.VClock(tick_us=1)
@@ -416,7 +500,7 @@ def probe_shard(kind: str, known: list[str]) -> dict:
     if kind == "sqlite":
         sched.install_sqlite(inst)
     try:
-        for case in PROBES:
+        for case in PROBES + REGRESSIONS:
             obs = execute(kind, case, clock, {})
             part.case(key=(kind, case), nontrivial=True, classes=[f"backend_{kind}"], sample={"backend": kind, **case})
             if obs["failure"] is None:
@@ -439,6 +523,8 @@ def run(ctx: Ctx) -> None:
     jobs = [("mem", ctx.seed * 1000 + k, ex_mem, known) for k in range(n // 2)] + [("sqlite", ctx.seed * 1000 + 500 + k, ex_sql, known) for k in range(n - n // 2)]
     merge_parts(ctx, pmap(shard, jobs))
     merge_parts(ctx, pmap(probe_shard, [("mem", known), ("sqlite", known)]))
+    nsh = 8
+    merge_parts(ctx, pmap(window_shard, [(ci, j, nsh, 2, known, nf) for ci in range(1 if ctx.quick else len(WINDOW_CASES)) for j in range(nsh) for nf in (False, True)]))
     ctx.assumptions.append("concurrency keys are computed by the harness from the submitted arguments (TASK: the task; ARGUMENTS: all three arguments; KEYS: the declared key arguments)")
     ctx.assumptions.append("runner model: per round one poll for `slots` invocations, one worker actor per yielded invocation; bodies take 3 scheduling steps")
 
@@ -465,7 +551,12 @@ def replay(case: dict) -> int:
     if kind == "sqlite":
         sched.install_sqlite(inst)
     try:
-        obs = execute(kind, c, clock, {})
+        pre = c.pop("window_pre", None)
+        newest = c.pop("window_newest", False)
+        if pre is not None:
+            obs = execute(kind, c, clock, {}, policy_obj=sched.NonPreemptive({int(a): int(b) for a, b in pre}, newest), trace_funcs=WINDOW_FUNCS)
+        else:
+            obs = execute(kind, c, clock, {})
         probs = judge(c, obs)
         for p in probs:
             print("REPRODUCED:", p)
